@@ -546,6 +546,11 @@ pub mod verif {
         pub submitted_io: usize,
     }
 
+    /// The private `filter_branch_changeset`.
+    pub fn filter_branch(changeset: &mut Vec<(Key, Option<Arc<super::BranchNode>>)>) {
+        super::filter_branch_changeset(changeset)
+    }
+
     fn index_entries(index: &Index) -> Vec<(Key, NodeHandle)> {
         let mut out = Vec::new();
         let mut cur = match index.lookup([0u8; 32]) {
